@@ -131,6 +131,68 @@ def run_frame(ctx_index, entry, n, g, r, path_timeout_s=45.0):
                           path_timeout_s=path_timeout_s)
 
 
+# DOM-level entry points (no CSSParser involved): name -> (callable(cssutils, text), templates with one hole)
+DOM_CALLS = {
+    'MediaQuery': (lambda cu, t: cu.stylesheets.MediaQuery(t), ['screen \xa7', 'tv and (\xa7)', '\xa7']),
+    'MediaList': (lambda cu, t: cu.stylesheets.MediaList(t), ['tv, \xa7', 'tv \xa7, print']),
+    'Selector': (lambda cu, t: cu.css.Selector(t), ['a \xa7', 'a[\xa7]', 'a:not(\xa7']),
+    'SelectorList': (lambda cu, t: cu.css.SelectorList(t), ['a, \xa7']),
+    'PropertyValue': (lambda cu, t: cu.css.PropertyValue(t), ['1px \xa7', 'f(\xa7', 'rgb(1,\xa7']),
+    'Property': (lambda cu, t: cu.css.Property('a', t), ['1px \xa7', 'b !\xa7']),
+    'CSSStyleDeclaration': (lambda cu, t: cu.css.CSSStyleDeclaration(cssText=t), ['a:b;\xa7', 'a:\xa7']),
+    'CSSVariablesDeclaration': (lambda cu, t: cu.css.CSSVariablesDeclaration(cssText=t), ['a:b;\xa7', 'a:\xa7']),
+    'CSSStyleRule.cssText': (lambda cu, t: setattr(cu.css.CSSStyleRule(), 'cssText', t), ['a{b:c}\xa7', 'a\xa7{b:c}']),
+    'CSSMediaRule.cssText': (lambda cu, t: setattr(cu.css.CSSMediaRule(), 'cssText', t), ['@media tv \xa7{a{b:c}}', '@media tv{a{b:c}\xa7}']),
+    'CSSImportRule.cssText': (lambda cu, t: setattr(cu.css.CSSImportRule(), 'cssText', t), ['@import "x" tv \xa7;']),
+    'CSSPageRule.cssText': (lambda cu, t: setattr(cu.css.CSSPageRule(), 'cssText', t), ['@page :first \xa7{a:b}']),
+}
+DOM_JOBS = [(k, i) for k in sorted(DOM_CALLS) for i in range(len(DOM_CALLS[k][1]))]
+
+
+def _dom_call(cssutils, name, text):
+    try:
+        DOM_CALLS[name][0](cssutils, text)
+        return 'returned'
+    except Exception as e:
+        return 'raised:' + type(e).__name__
+
+
+def run_dom(name, tindex, n, g):
+    """a DOM object is built / set from text with a symbolic hole, outside any CSSParser call: V and the battery
+    must not change"""
+    cssutils = common.setup_lifted()
+    from sx.symstr import fresh_str, reduced_alphabet
+    amask = reduced_alphabet()
+    template = DOM_CALLS[name][1][tindex]
+    cssutils.log.raiseExceptions = True
+    baseline = battery(cssutils)
+
+    def fn():
+        s = fresh_str(n, mask=amask)
+        pre, post = template.split('\xa7')
+        text = pre + s + post
+        inputs = {'kind': 'dom', 'name': name, 'text': text, 'g': g}
+        common.set_inputs(inputs)
+        info = {'in': inputs, 'tags': ['dom']}
+        cssutils.log.raiseExceptions = g
+        v0 = state_vector(cssutils)
+        outcome = _dom_call(cssutils, name, text)
+        v1 = state_vector(cssutils)
+        info['tags'].append(outcome.split(':')[0])
+        if v0 != v1:
+            info['note'] = {'problem': 'state changed', 'changed': [a[0] for a, b in zip(v0, v1) if a != b], 'outcome': outcome}
+            _reset(cssutils)
+            return False, info
+        cssutils.log.raiseExceptions = True
+        if battery(cssutils) != baseline:
+            info['note'] = {'problem': 'battery differs', 'outcome': outcome}
+            _reset(cssutils)
+            return False, info
+        return True, info
+
+    return common.explore(fn, 'dom(%s,%d,n=%d,g=%s)' % (name, tindex, n, g), path_timeout_s=60.0)
+
+
 def _reset(cssutils):
     from cssutils import prodparser
     cssutils.log.raiseExceptions = True
@@ -334,6 +396,10 @@ def jobs(tier):
         for op in FAULT_OPS:
             out.append(('harness.c12', 'run_fault', dict(op=op, g=g, r=r)))
     out.append(('harness.c12', 'run_combine', {}))
+    for name, ti in DOM_JOBS:
+        for g in (True, False):
+            for n in range(1, nmax + 1):
+                out.append(('harness.c12', 'run_dom', dict(name=name, tindex=ti, n=n, g=g)))
     out.sort(key=lambda j: -j[2].get('n', 0))
     return out
 
@@ -401,6 +467,8 @@ def main(tier):
         'frame': 'all %d sheet and %d style contexts, symbolic infix of length <= %d, library mode x parser mode '
                  'in %s' % (len(SHEET_CONTEXTS), len(STYLE_CONTEXTS), 1 if tier == 'quick' else 2,
                             MODES[:2] if tier == 'quick' else MODES),
+        'dom': 'DOM objects built / set from text outside any parser call: %d templates over %s, hole of length <= %d, both '
+               'library modes' % (len(DOM_JOBS), sorted(DOM_CALLS), 1 if tier == 'quick' else 2),
         'bytes': "b'a{b:c}' + every 0..2 symbolic bytes, encoding utf-8 / ascii / None, all four mode pairs",
         'faults': 'fetcher raising at call k (k symbolic 1..3), parseUrl, missing file, csscombine (failing '
                   'fetcher; undecodable source)',
@@ -412,7 +480,7 @@ def main(tier):
                        'the probe battery stands for "any later call"']
     rep.stubs = ['logging: StubLog', 'fetcher: in-memory', 'codecs: sx/pycodecs.py']
     rep.outside = ['state outside the process', 'first calls longer than the infix bound']
-    rep.witness_required = ['returned', 'raised', 'reuse', 'combine']
+    rep.witness_required = ['returned', 'raised', 'reuse', 'combine', 'dom']
     return rep.finish()
 
 
@@ -479,6 +547,9 @@ def replay(case):
         if kind == 'frame':
             desc = '%s(%r)' % ('parseString' if inp['entry'] == 'sheet' else 'parseStyle', inp['text'])
             outcome = _first_call(cssutils, inp['text'], inp['entry'], g, r)
+        elif kind == 'dom':
+            desc = '%s with %r' % (inp['name'], inp['text'])
+            outcome = _dom_call(cssutils, inp['name'], inp['text'])
         elif kind == 'bytes':
             desc = 'parseString(%r, encoding=%r)' % (inp['data'], inp['encoding'])
             parser = cssutils.CSSParser(raiseExceptions=r, validate=False)
